@@ -7,7 +7,7 @@
 EXTENDS Integers, Sequences, FiniteSets, TLC, Json
 TraceLog == ndJsonDeserialize("trace.ndjson")
 \* key files that decrypt and load; a ":pre..." suffix only preloads the list of published public keys
-GoodFiles == {"ok", "ed", "ed:preed", "ed:prersa", "ed:preforeign", "ed:premix", "ok:prersa", "ok:preforeign"}
+GoodFiles == {"ok", "ed", "ecprimary521", "ed:preed", "ed:prersa", "ed:preforeign", "ed:premix", "ok:prersa", "ok:preforeign"}
 VARIABLES sealed, fileok, l, viol
 vars == <<sealed, fileok>>
 Failed(gs) == {g[1] : g \in {x \in gs : ~x[2]}}
